@@ -337,12 +337,14 @@ reg("C05", harness="c05_memory", level="fault_enumeration", deadline=(600, 3000)
                "with no slop bytes); streaming with every chunk in its own exact-size mapping that is made inaccessible as soon as it is recycled "
                "(uniform (in,out) chunk pairs x levels x flush modes); large chunks (345 000 bytes in 2 or 3 pieces, incompressible and mixed, levels 1-3 x "
                "level-buffer classes) with the first-chunk length swept byte by byte behind every block boundary the codec chose, the consumed chunk "
-               "inaccessible during the next call and the result decoded by the reference; the same harness on the portable-C build under ASan/UBSan and on the NDEBUG "
+               "inaccessible during the next call and the result decoded by the reference; the same large incompressible input in one chunk with the FIRST "
+               "output buffer swept byte by byte around every block boundary p (p+d and p-65824+d: where a stored block is cut by the end of the "
+               "output buffer), all objects exact-size; the same harness on the portable-C build under ASan/UBSan and on the NDEBUG "
                "build; and the complete kernel sweeps (CRC, erasure code, update, RAID, zero detect: every length x end-flush and start-flush "
                "placements x every ISA variant) re-run under this property.",
     level_note="an out-of-range access that lands inside another live buffer of the same call needs an offset beyond the 1 MiB guard bands; "
                "intra-struct overflows are visible only in the ASan flavour (portable C code, not the assembly kernels).",
-    runs=[dict(flavour="sim", part="exact"), dict(flavour="sim", part="revoke"), dict(flavour="sim", part="bigchunks"), dict(flavour="rel", part="exact,revoke"), dict(flavour="noarch", part="exact,revoke,bigchunks"),
+    runs=[dict(flavour="sim", part="exact"), dict(flavour="sim", part="revoke"), dict(flavour="sim", part="bigchunks"), dict(flavour="sim", part="bigout"), dict(flavour="rel", part="exact,revoke"), dict(flavour="noarch", part="exact,revoke,bigchunks"),
           dict(flavour="sim", harness="c20_zero"), dict(flavour="sim", harness="c04_crc"), dict(flavour="sim", harness="c03_ec"),
           dict(flavour="sim", harness="c13_update"), dict(flavour="sim", harness="c08_raid")],
     rule="case = (entry point, variant / CPU level, input or length, placement); a fault, canary damage or sanitizer report is a violation; "
